@@ -189,11 +189,88 @@ Proof.
     apply add_refines. exact Hi.
 Qed.
 
+(* ---------- __getitem__ and the mixins built on it ---------- *)
+Lemma get_item_hit : forall n h vs, inv h -> d_get (normalize n) (as_list h) = Some vs ->
+  exists h', get_item n h = (RText (join [c_comma] vs), h') /\
+             as_list h' = as_list h /\ last_key h' = last_key h /\ inv h'.
+Proof.
+  intros n h vs Hi Hg. unfold get_item.
+  destruct (d_get (normalize n) (cache h)) as [v|] eqn:Ec.
+  - destruct Hi as [Hc Hs]. destruct (Hc _ _ Ec) as [vs' [Hg' Hv]]. rewrite Hg in Hg'. inversion Hg'; subst.
+    exists h. split; [reflexivity|]. split; [reflexivity|]. split; [reflexivity|]. split; assumption.
+  - rewrite Hg. eexists. split; [reflexivity|]. simpl.
+    split; [reflexivity|]. split; [reflexivity|]. apply inv_fill; auto.
+Qed.
+Lemma get_item_miss : forall n h, inv h -> d_get (normalize n) (as_list h) = None ->
+  get_item n h = (RErr EKey, h).
+Proof.
+  intros n h [Hc Hs] Hg. unfold get_item.
+  destruct (d_get (normalize n) (cache h)) as [v|] eqn:Ec.
+  - destruct (Hc _ _ Ec) as [vs [Hg' _]]. congruence.
+  - rewrite Hg. reflexivity.
+Qed.
+
+Lemma nodup_lookup {V} : forall (d : list (text * V)) k v, NoDup (map fst d) -> In (k, v) d -> d_get k d = Some v.
+Proof.
+  induction d as [|[k1 v1] d IH]; intros k v Hn Hin; [contradiction|]. simpl in *.
+  inversion Hn as [|? ? Hk1 Hn']; subst. destruct Hin as [E|Hin].
+  - inversion E; subst. rewrite text_eqb_refl. reflexivity.
+  - assert (k <> k1). { intro; subst. apply Hk1. apply in_map_iff. exists (k1, v). auto. }
+    assert (text_eqb k k1 = false) as -> by (apply text_eqb_neq; assumption). apply IH; assumption.
+Qed.
+
+Definition lookup_list (k : text) (al : mmap) : list text :=
+  match d_get k al with Some vs => vs | None => [] end.
+
+Lemma items_go_spec : forall ks acc h, inv h ->
+  (forall k, In k ks -> normalize k = k /\ exists vs, d_get k (as_list h) = Some vs) ->
+  exists h', items_go ks acc h =
+               (RPairs (rev acc ++ map (fun k => (k, join [c_comma] (lookup_list k (as_list h)))) ks), h') /\
+             as_list h' = as_list h /\ last_key h' = last_key h /\ inv h'.
+Proof.
+  induction ks as [|k ks IH]; intros acc h Hi Hk.
+  - exists h. simpl. rewrite app_nil_r. auto.
+  - destruct (Hk k (or_introl eq_refl)) as [Hn [vs Hg]].
+    assert (Hg' : d_get (normalize k) (as_list h) = Some vs) by (rewrite Hn; exact Hg).
+    destruct (get_item_hit k h vs Hi Hg') as [h1 [E1 [E2 [E3 E4]]]].
+    cbn [items_go]. rewrite E1.
+    destruct (IH ((k, join [c_comma] vs) :: acc) h1 E4) as [h2 [F1 [F2 [F3 F4]]]].
+    { intros k' Hin. rewrite E2. apply Hk. right. exact Hin. }
+    exists h2. split; [|split; [congruence|split; [congruence|exact F4]]].
+    rewrite F1, E2. assert (HL : lookup_list k (as_list h) = vs) by (unfold lookup_list; rewrite Hg; reflexivity).
+    cbn [map rev]. rewrite HL, <- app_assoc. reflexivity.
+Qed.
+
+Lemma items_refines : forall h, inv h ->
+  exists h', items h = (RPairs (s_items (abs h)), h') /\ abs h' = abs h /\ inv h'.
+Proof.
+  intros h Hi. unfold items, keys.
+  destruct (items_go_spec (map fst (as_list h)) [] h Hi) as [h' [E1 [E2 [E3 E4]]]].
+  - intros k Hin. destruct Hi as [_ [Hn Hf]]. split.
+    + apply in_map_iff in Hin as [[k1 vs] [E Hin]]. simpl in E. subst k1.
+      rewrite Forall_forall in Hf. apply (Hf _ Hin).
+    + destruct (d_get k (as_list h)) eqn:Eg; [eauto|]. apply d_get_none_not_in in Eg. contradiction.
+  - exists h'. split; [|split; [unfold abs; rewrite E2, E3; reflexivity|exact E4]].
+    rewrite E1. f_equal. f_equal. cbn [rev app]. unfold s_items. cbn [abs s_map].
+    rewrite map_map. apply map_ext_in. intros [k vs] Hin. cbn [fst snd].
+    unfold lookup_list. destruct Hi as [_ [Hn _]]. rewrite (nodup_lookup _ _ _ Hn Hin). reflexivity.
+Qed.
+
+Lemma update_all_refines : forall l h, inv h ->
+  abs (update_all l h) = s_update l (abs h) /\ inv (update_all l h).
+Proof.
+  induction l as [|[k v] l IH]; intros h Hi; [split; [reflexivity|exact Hi]|].
+  unfold update_all, s_update in *. cbn [fold_left fst snd].
+  assert (Hi' : inv (set_item k v h)) by (apply inv_set; [exact Hi|apply normalize_idem]).
+  destruct (IH (set_item k v h) Hi') as [E1 E2]. split; [|exact E2].
+  rewrite E1. f_equal; unfold abs, set_item; cbn [as_list last_key s_map s_last]; rewrite ms_replace_set; reflexivity.
+Qed.
+
 (* ---------- every single-object operation ---------- *)
 Theorem step_refines : forall o h, inv h ->
   s_step o (abs h) = (fst (step o h), abs (snd (step o h))) /\ inv (snd (step o h)).
 Proof.
-  intros o h Hi. destruct o as [n v|n v|n|n|n|n| | |l| ]; simpl step; simpl s_step.
+  intros o h Hi. destruct o as [n v|n v|n|n|n|n| | |l| |n|n|n v| | |l]; simpl step; simpl s_step.
   - apply add_refines. exact Hi.
   - simpl. rewrite ms_replace_set. split; [reflexivity|]. apply inv_set; [exact Hi|apply normalize_idem].
   - unfold del_item. simpl s_map. rewrite ms_mem_mem, ms_remove_del.
@@ -210,4 +287,28 @@ Proof.
   - simpl. split; [reflexivity|exact Hi].
   - apply parse_line_refines. exact Hi.
   - simpl. split; [reflexivity|exact Hi].
+  - (* GetD *) change (s_map (abs h)) with (as_list h). rewrite ms_find_get. unfold get_default.
+    destruct (d_get (normalize n) (as_list h)) as [vs|] eqn:Eg.
+    + destruct (get_item_hit n h vs Hi Eg) as [h' [E1 [E2 [E3 E4]]]]. rewrite E1. simpl.
+      split; [unfold abs; rewrite E2, E3; reflexivity|exact E4].
+    + rewrite (get_item_miss n h Hi Eg). simpl. split; [reflexivity|exact Hi].
+  - (* Pop *) change (s_map (abs h)) with (as_list h). change (s_last (abs h)) with (last_key h).
+    rewrite ms_find_get, ms_remove_del. unfold pop_item.
+    destruct (d_get (normalize n) (as_list h)) as [vs|] eqn:Eg.
+    + destruct (get_item_hit n h vs Hi Eg) as [h' [E1 [E2 [E3 E4]]]]. rewrite E1.
+      unfold del_item, d_mem. rewrite E2, Eg. simpl. split.
+      * unfold abs. simpl. rewrite E3. reflexivity.
+      * rewrite <- E2. apply inv_delete. exact E4.
+    + rewrite (get_item_miss n h Hi Eg). simpl. split; [reflexivity|exact Hi].
+  - (* SetDefault *) change (s_map (abs h)) with (as_list h). change (s_last (abs h)) with (last_key h).
+    rewrite ms_find_get, ms_replace_set. unfold set_default.
+    destruct (d_get (normalize n) (as_list h)) as [vs|] eqn:Eg.
+    + destruct (get_item_hit n h vs Hi Eg) as [h' [E1 [E2 [E3 E4]]]]. rewrite E1. simpl.
+      split; [unfold abs; rewrite E2, E3; reflexivity|exact E4].
+    + rewrite (get_item_miss n h Hi Eg). simpl. split; [reflexivity|].
+      apply inv_set; [exact Hi|apply normalize_idem].
+  - (* Items *) destruct (items_refines h Hi) as [h' [E1 [E2 E3]]]. rewrite E1. simpl.
+    rewrite E2. split; [reflexivity|exact E3].
+  - simpl. split; [reflexivity|exact Hi].
+  - (* Update *) simpl. destruct (update_all_refines l h Hi) as [E1 E2]. rewrite E1. split; [reflexivity|exact E2].
 Qed.
